@@ -47,7 +47,7 @@ class C06(Prop):
                            "baize.concurrency.ThreadPoolExecutor.submit", "asyncio.Queue/wait_for/tasks/async generators (CPython 3.12)", "user generators"],
                   "stub": ["event-loop selector/clock", "ASGI server", "WSGI server", "queue.Queue blocking", "pool executor -> simulated thread",
                            "Future.result/exception waiting", "time.sleep/time"]}
-    hard_probes = ("disconnect", "server_close_early", "wsgi_sse_close_while_relay_alive", "asgi_sse_ping_sent", "send_backpressure", "send_raises", "pool_saturated", "cleanup_raises", "wsgi_sse_two_streams")
+    hard_probes = ("disconnect", "server_close_early", "disconnect_at_instant", "pool_at_capacity_item_queued", "wsgi_sse_close_while_relay_alive", "asgi_sse_ping_sent", "send_backpressure", "send_raises", "pool_saturated", "cleanup_raises", "wsgi_sse_two_streams")
     quick_runs = 25000
     thorough_runs = 400000
     quick_wall = 50.0
@@ -70,7 +70,9 @@ class C06(Prop):
             "cdelay": t.choice((0.0, 0.0, 0.3)) if surface.startswith("asgi") else 0.0,
             "lat": t.choice(["mixed", "fast", "mixed", "slow"]),
             "raising": t.draw(3) == 0,
-            "iter_kind": t.weighted([(4, "gen"), (1, "iter")]),
+            "iter_kind": t.weighted([(4, "gen"), (1, "iter"), (1, "iter-aclose")]),
+            # the producer waits for its next item in a blocking call handed to the thread pool (run_in_threadpool) instead of asyncio.sleep
+            "bridge": surface.startswith("asgi") and t.draw(6) == 0,
             "time_fracs": [t.draw(1000) / 1000.0 for _ in range(2)],
             # the user's cleanup code itself fails (after the marker): the response must still release everything
             "cleanup_raises": t.draw(8) == 0,
@@ -81,6 +83,11 @@ class C06(Prop):
             plan["pool_delay"] = t.choice((0.0, 0.0, 0.0, P / 2, 2 * P + 0.001))
             # a second, independent event stream alive at the same time (the pool is shared by all responses)
             plan["second_stream"] = t.choice([None, None, None, {"n": 1 + t.draw(3), "delay": t.choice((0.0, 0.001, P / 2)), "start": t.choice((0.0, 0.0, 0.3))}])
+            # many clients: as many (or more) event streams already open as the shared pool has workers, their producers
+            # still running when this response starts; its relay waits in the pool's queue meanwhile
+            # mode "open": they are endless streams that stay open until this response has returned (or a watchdog far beyond
+            # every bound gives up): its return must not depend on other clients leaving
+            plan["crowd"] = {"k": t.choice((9, 10, 11)), "hold": t.choice((P / 2, 2 * P + 0.001, 4 * P)), "mode": t.choice(("finite", "open"))} if t.draw(12) == 0 else None
         return plan
 
     def variants(self, plan, ctx0):
@@ -94,6 +101,10 @@ class C06(Prop):
                 vs.append(("time", round(f * t_end, 3)))
             # the transport fails: the j-th send() raises (the producer must still be released)
             vs += [("sendraise", j) for j in range(1, min(n_em, 10) + 1)]
+        elif plan["surface"] == "wsgi-sse" and (plan.get("crowd") or {}).get("mode") == "open":
+            # the client goes away at an arbitrary instant; a WSGI server notices when the iterable hands something back
+            for f in plan["time_fracs"]:
+                vs.append(("time", round(f * 2 * plan["P"], 3)))
         return vs
 
     def nontrivial(self, plan, ctx, variant):
@@ -155,7 +166,14 @@ class C06(Prop):
                         if boom_at == i:
                             st["events"].append((loop.time(), "boom"))
                             raise boom
-                        if d:
+                        if d and plan.get("bridge"):
+                            from baize.concurrency import run_in_threadpool
+
+                            def blocking():
+                                return None
+                            blocking._sim_duration = d
+                            await run_in_threadpool(blocking)
+                        elif d:
                             await asyncio.sleep(d)
                         st["events"].append((loop.time(), "yield", i))
                         ctx.sch("prod", i, round(loop.time(), 6))
@@ -186,6 +204,12 @@ class C06(Prop):
                 async def __anext__(self):
                     return await g.__anext__()
 
+            class ItClose(It):  # an async iterator object that can be closed but is no async generator (no asend / athrow)
+                async def aclose(self):
+                    await g.aclose()
+
+            if plan["iter_kind"] == "iter-aclose":
+                return ItClose()
             st["inner"] = g
             return It()
 
@@ -275,7 +299,7 @@ class C06(Prop):
                 ctx.violate("C06|%s|termination|late" % surf, "disconnect at %.3f, returned at %.3f, bound %.3f (P=%s, Lmax=%s)" % (t_disc, snap["t_ret"], bound, P, L_max))
         # 2. release
         started = snap["st"]["started"]
-        if plan["iter_kind"] == "gen":
+        if plan["iter_kind"] in ("gen", "iter-aclose"):
             if started and snap["st"]["cleanup"] != 1:
                 ctx.violate("C06|%s|release|cleanup-ran-%d-times" % (surf, snap["st"]["cleanup"]), "producer started, cleanup count %d" % snap["st"]["cleanup"])
         elif snap["st"]["cleanup"] > 1:
@@ -303,7 +327,9 @@ class C06(Prop):
         cboom = CleanupError("cleanup failure")
         out = {}
         second = {"cleanup": 0, "body": b"", "exc": None, "done": False}
-        close_after = None if variant is None else variant[1]
+        close_after = None if variant is None or variant[0] == "time" else variant[1]
+        t_gone = variant[1] if variant is not None and variant[0] == "time" else None
+        rel = {"on": False, "t": None, "by_watchdog": False}
         ctx.notes["qrepr"] = lambda x: None if x is None else (x.get("data") if isinstance(x, dict) else type(x).__name__)
         with T.simulation(ctx.sched, ctx, trace_files=("baize/wsgi/responses.py", "baize/concurrency.py"), preempt=plan["preempt"]) as s:
             import time as _t
@@ -353,10 +379,13 @@ class C06(Prop):
                 d = plan["cdelays"][(p.n_items - 1) % len(plan["cdelays"])]
                 if d:
                     _t.sleep(d)
-                if close_after is not None and p.n_items >= close_after:
+                if (close_after is not None and p.n_items >= close_after) or (t_gone is not None and s.now >= t_gone):
+                    if t_gone is not None:
+                        ctx.fault("disconnect_at_instant")
                     out["close_start"] = s.now
                     out["n_at_close"] = len(st["events"])
                     out["relay_at_close"] = [x for x in s.snapshot() if x[0].startswith("pool")]
+                    return True
 
             def consumer():
                 r = SendEventResponse(iterable, ping_interval=P)
@@ -365,6 +394,51 @@ class C06(Prop):
                     out["n_at_close"] = 0
                 peer.run(r, close_after=close_after, on_item=on_item)
                 out["closed_at"] = s.now
+
+            crowd = plan.get("crowd")
+            crowd_st = []
+            if crowd:
+                ctx.probe("wsgi_sse_crowd_%d" % crowd["k"])
+
+                def member(idx):
+                    cs = {"cleanup": 0, "body": b"", "exc": None, "done": False}
+                    crowd_st.append(cs)
+
+                    def cgen():
+                        try:
+                            _t.sleep(crowd["hold"])
+                            yield {"data": "c%d" % idx}
+                            while crowd.get("mode") == "open" and not rel["on"]:
+                                _t.sleep(max(crowd["hold"], P))
+                        finally:
+                            cs["cleanup"] += 1
+
+                    def cconsumer():
+                        cp = WsgiPeer(ctx, ctx.sched, AbstractRequest("GET", "/crowd%d" % idx), surface=surf)
+                        cp.run(SendEventResponse(cgen(), ping_interval=P))
+                        cs.update(body=cp.body, exc=cp.exc or cp.close_exc, done=True)
+
+                    s.spawn(cconsumer, "crowd%d" % idx)
+
+                for idx in range(crowd["k"]):
+                    member(idx)
+                main_consumer = consumer
+
+                def consumer():       # the response under test is opened once the others are
+                    _t.sleep(0.01)
+                    main_consumer()
+
+                if crowd.get("mode") == "open":
+                    ctx.probe("wsgi_sse_crowd_open")
+
+                    def watchdog():
+                        if not s.block_until(lambda: "closed_at" in out, 8 * P, "watchdog"):
+                            rel["by_watchdog"] = True
+                            ctx.probe("wsgi_sse_crowd_released_by_watchdog")
+                        rel["on"] = True
+                        rel["t"] = s.now
+
+                    s.spawn(watchdog, "watchdog")
 
             s.spawn(consumer, "consumer")
             ss = plan.get("second_stream")
@@ -390,7 +464,7 @@ class C06(Prop):
                 s.spawn(consumer2, "consumer2")
             res = s.run()
             # snapshot BEFORE teardown
-            snap = {"res": res, "threads": s.snapshot(), "st": dict(st, events=list(st["events"])), "out": dict(out), "body": peer.body, "second": dict(second),
+            snap = {"res": res, "threads": s.snapshot(), "st": dict(st, events=list(st["events"])), "out": dict(out), "body": peer.body, "second": dict(second), "crowd": [dict(c) for c in crowd_st], "rel": dict(rel),
                     "exc": peer.exc, "close_exc": peer.close_exc, "items": peer.n_items, "now": s.now, "switches": s.switches, "pre": s.preemptions}
             inner = st.get("inner")
         # (simulation exited: threads torn down)
@@ -439,14 +513,27 @@ class C06(Prop):
                 ctx.violate("C06|%s|second-stream|exception|%s" % (surf, type(s2["exc"]).__name__), repr(s2["exc"]))
             elif not s2["done"] or s2["body"].replace(b": ping\n\n", b"") != exp2 or s2["cleanup"] != 1:
                 ctx.violate("C06|%s|second-stream|incomplete" % surf, "done=%s cleanup=%d body=%r" % (s2["done"], s2["cleanup"], s2["body"][:80]))
+        if snap["res"] == "ok" and t_gone is not None and snap["rel"]["by_watchdog"]:
+            # the client left at t_gone <= 2P; whatever the pool's load, the iterable hands a ping back within one interval, the
+            # server closes it, and close() returns: 8P later this response was still open and returned only once the OTHER
+            # streams had been ended
+            ctx.violate("C06|%s|termination|returns-only-after-other-streams-ended" % surf,
+                        "client gone at %.3f; %d other event streams open; the response had not returned at %.3f when the others were released; returned at %r"
+                        % (t_gone, plan["crowd"]["k"], snap["rel"]["t"], snap["out"].get("closed_at")))
+        if snap["res"] == "ok":
+            for idx, c in enumerate(snap["crowd"]):
+                if c["exc"] is not None:
+                    ctx.violate("C06|%s|crowd-stream|exception|%s" % (surf, type(c["exc"]).__name__), repr(c["exc"]))
+                elif not c["done"] or c["body"].replace(b": ping\n\n", b"") != b"data: c%d\n\n" % idx or c["cleanup"] != 1:
+                    ctx.violate("C06|%s|crowd-stream|incomplete" % surf, "stream %d: done=%s cleanup=%d body=%r" % (idx, c["done"], c["cleanup"], c["body"][:80]))
         # 4. exception identity
         for e in (snap["exc"], snap["close_exc"]):
             if e is not None and e is not boom and e is not cboom:
                 ctx.violate("C06|%s|exception|foreign-exception|%s" % (surf, type(e).__name__), repr(e))
-        if snap["res"] == "ok" and close_after is None and boom_at is not None and snap["exc"] is None and snap["close_exc"] is None:
+        if snap["res"] == "ok" and close_after is None and t_gone is None and boom_at is not None and snap["exc"] is None and snap["close_exc"] is None:
             ctx.violate("C06|%s|exception|producer-exception-swallowed" % surf, "producer raised at step %d" % boom_at)
         # 3. delivery
-        self._check_delivery(plan, ctx, surf, snap["body"], complete_expected=(close_after is None and snap["res"] == "ok" and (snap["exc"] is None or snap["exc"] is boom or snap["exc"] is cboom)))
+        self._check_delivery(plan, ctx, surf, snap["body"], complete_expected=(close_after is None and t_gone is None and snap["res"] == "ok" and (snap["exc"] is None or snap["exc"] is boom or snap["exc"] is cboom)))
 
     # ======================= WSGI stream (sequential) =======================
     def _wsgi_stream(self, plan, ctx, variant):
